@@ -346,3 +346,20 @@ package internal
 //@   prop C13
 //@   requires len(network) >= 3
 //@   ensures [no-leak] err != nil ==> (forall k :: FDOPEN[k] == old(FDOPEN[k]))
+
+// --- the poller's own descriptors (C13) ---
+//@ func (*EventFd).Close
+//@   prop C13
+//@   assert call syscall.Close: arg0 == e.fd
+//@   ensures [released] forall k :: FDOPEN[k] == ((k == e.fd) ? 0 : old(FDOPEN[k]))
+//@   modifies FDOPEN
+
+//@ func (*poller).Close
+//@   prop C13
+//@   requires pInv(p)
+//@   // only the first Close releases the epoll descriptor and the waker's
+//@   assert call syscall.Close: [first-close-only] old(p.closed) == 0 && arg0 == p.fd
+//@   assert call EventFd).Close: [first-close-only-waker] old(p.closed) == 0
+//@   ensures [already-closed] old(p.closed) != 0 ==> result != nil && (forall k :: FDOPEN[k] == old(FDOPEN[k]))
+//@   ensures [released] old(p.closed) == 0 ==> FDOPEN[p.fd] == 0 && FDOPEN[p.waker.fd] == 0 && p.closed == 1
+//@   ensures [nothing-else] forall k :: k != p.fd && k != p.waker.fd ==> FDOPEN[k] == old(FDOPEN[k])
